@@ -33,6 +33,9 @@ pub struct Case {
     /// length unit of the model: 1 = metres, 1000 = the same robot, tool and base written in millimetres (lengths are already scaled in `robot`, `tool`, `base`)
     #[serde(default = "one")]
     pub unit: f64,
+    /// the robot is wrapped in a parallelogram coupling (driven, coupled, scaling) below tool and base
+    #[serde(default)]
+    pub para: Option<(u8, u8, f64)>,
 }
 
 fn one() -> f64 {
@@ -81,7 +84,7 @@ impl Property for C15 {
         "C15"
     }
     fn rule(&self) -> String {
-        "robots (bare, Tool, Base, Tool over Base; all sign/offset conventions; sign 0 on J6 for dof 5) x joint vectors x differencing step in {1e-7,1e-6,1e-5} x twists/wrenches (|v|,|w| < 3) x length unit of the model (metres, or the same cell written in millimetres). \
+        "robots (bare, Tool, Base, Tool over Base, one in four on top of a parallelogram coupling with scaling 1, -1, 0.5 or random; all sign/offset conventions; sign 0 on J6 for dof 5) x joint vectors x differencing step in {1e-7,1e-6,1e-5} x twists/wrenches (|v|,|w| < 3) x length unit of the model (metres, or the same cell written in millimetres). \
          Non-trivial: condition number of the geometric Jacobian below 1e4 and (a wrapper present or a non-default sign pattern)."
             .into()
     }
@@ -108,9 +111,9 @@ impl Property for C15 {
             prop::array::uniform6(-3.0..3.0f64),
             prop_oneof![2 => Just(None), 1 => (prop::array::uniform6(prop_oneof![1 => Just(0.0), 1 => Just(1e-6), 3 => 0.01..2.0f64]), prop::array::uniform6(prop_oneof![1 => Just(0.0), 1 => Just(1e-6), 3 => 0.01..2.0f64])).prop_map(Some)],
             other_robot(DofChoice::Six, false),
-            prop_oneof![4 => Just(1.0f64), 1 => Just(1000.0f64)],
+            (prop_oneof![4 => Just(1.0f64), 1 => Just(1000.0f64)], prop_oneof![3 => Just(None), 1 => (0u8..6, 1u8..6, prop_oneof![Just(1.0), Just(-1.0), Just(0.5), -2.0..2.0f64]).prop_map(|(d, o, s)| Some((d, (d + o) % 6, s)))]),
         )
-            .prop_map(|(robot, tool, base, j, eps, mut twist, window, other, unit)| {
+            .prop_map(|(robot, tool, base, j, eps, mut twist, window, other, (unit, para))| {
                 let other = resolve_other(&robot, other, false);
                 // the same cell written in another length unit (millimetres): every length and the linear part of the twist scale
                 let sc = |mut r: RobotSpec| {
@@ -129,7 +132,7 @@ impl Property for C15 {
                     *x *= unit;
                 }
                 let (robot, other, tool, base) = (sc(robot), other.map(sc), tool.map(sci), base.map(sci));
-                Case { robot, tool, base, j, eps, twist, window, other, unit }
+                Case { robot, tool, base, j, eps, twist, window, other, unit, para }
             })
             .boxed()
     }
@@ -137,8 +140,24 @@ impl Property for C15 {
         let r = &c.robot;
         let eps = [1e-7, 1e-6, 1e-5][(c.eps % 3) as usize];
         let reach = r.reach() + c.tool.map(|t| norm(&t.t)).unwrap_or(0.0) + c.base.map(|t| norm(&t.t)).unwrap_or(0.0);
-        let tol = 2.0 * eps * (1.0 + reach) + 20.0 * 1e-15 * (1.0 + reach) / eps;
-        let jgeo = geometric(r, &c.tool, &c.base, &c.j);
+        // (a coupling moves two joints per unit of the driven one: first and second derivatives grow by (1 + |s|) and its square)
+        let couple = c.para.map(|p| (1.0 + p.2.abs()).powi(2)).unwrap_or(1.0);
+        let tol = (2.0 * eps * (1.0 + reach) + 20.0 * 1e-15 * (1.0 + reach) / eps) * couple;
+        // with a parallelogram coupling q'[coupled] = q[coupled] - s q[driven] the chain rule gives column(driven) = inner column(driven) - s * inner column(coupled)
+        let jgeo = match c.para {
+            None => geometric(r, &c.tool, &c.base, &c.j),
+            Some((d, cp, sc)) => {
+                let (d, cp) = ((d % 6) as usize, (cp % 6) as usize);
+                let mut ji = c.j;
+                ji[cp] -= sc * c.j[d];
+                let mut m = geometric(r, &c.tool, &c.base, &ji);
+                for row in 0..6 {
+                    m[(row, d)] -= sc * m[(row, cp)];
+                }
+                ctx.class("wrapped in a parallelogram coupling");
+                m
+            }
+        };
 
         // the library Jacobian needs a concrete type (impl Kinematics): build the four shapes explicitly
         // the robot may carry joint limits (the joint vector is legal, possibly exactly on a limit): the Jacobian is a property
@@ -176,6 +195,16 @@ impl Property for C15 {
         }
         let earlier = c.other.as_ref().map(|o| opw(o));
         let jac = no_panic(|| match (&c.tool, &c.base) {
+            _ if c.para.is_some() => {
+                let (d, cp, sc) = c.para.unwrap();
+                let core = rs_opw_kinematics::parallelogram::Parallelogram { robot: Arc::new(inner), scaling: sc, driven: (d % 6) as usize, coupled: (cp % 6) as usize };
+                match (&c.tool, &c.base) {
+                    (None, None) => Jacobian::new(&core, &c.j, eps),
+                    (Some(t), None) => Jacobian::new(&Tool { robot: Arc::new(core), tool: to_na(&t.iso()) }, &c.j, eps),
+                    (None, Some(b)) => Jacobian::new(&Base { robot: Arc::new(core), base: to_na(&b.iso()) }, &c.j, eps),
+                    (Some(t), Some(b)) => Jacobian::new(&Tool { robot: Arc::new(Base { robot: Arc::new(core), base: to_na(&b.iso()) }), tool: to_na(&t.iso()) }, &c.j, eps),
+                }
+            }
             (None, None) => in_one_slot(earlier, inner, &c.j, eps),
             (Some(t), None) => in_one_slot(
                 earlier.map(|e| Tool { robot: Arc::new(e), tool: to_na(&IsoSpec { t: [t.t[0] + 0.3, t.t[1], t.t[2] - 0.2], axis: t.axis, angle: t.angle + 0.4 }.iso()) }),
